@@ -147,6 +147,8 @@ type loopInfo struct {
 	nextPre string
 	entered bool
 	rangeIdx *ssa.Alloc // the hidden index cell of a range-over-slice / counted loop
+	touched  []string   // references of address-taken locals the loop assigns (they may change without being named)
+	pre      *State     // state on entry to the loop (for atloop(e))
 }
 
 func (g *FnGen) fresh(hint, sort string) string {
@@ -790,6 +792,7 @@ func (g *FnGen) loopHead(s *State, li *loopInfo) {
 		panic(genErr("%s: loop %d has no invariant", g.fn.Name(), li.ordinal))
 	}
 	// init
+	li.pre = s.clone()
 	env := g.newEnv(s, g.entry)
 	env.loop = li
 	for i, inv := range li.lc.Invariants {
@@ -855,22 +858,16 @@ func (g *FnGen) loopHead(s *State, li *loopInfo) {
 	fenv.loop = li
 	li.entered = true
 	li.nextPre = pre.next
-	if li.lc.HasMod {
-		li.pats = g.evalPats(fenv, li.lc.Modifies)
-	}
+	li.pre = pre
+	// loop frame: with `loop k modifies` what it names, otherwise what the function's modifies clause names;
+	// in addition the loop may change objects it allocates and the address-taken locals it assigns directly
+	li.pats = g.evalPats(fenv, mods)
+	li.touched = g.touchedLocals(li)
 	for _, k := range hl {
 		old := g.heap(pre, k)
 		n := g.fresh(heapName(k)+"_h", "(Array Ref "+k+")")
 		s.heaps[k] = n
-		// no modifies clause = modifies nothing visible: only objects allocated since the loop was entered may change
-		_ = hasMod
-		// with an explicit `loop k modifies` only what it names (or what the loop allocates) may change;
-		// otherwise the function's frame applies: anything allocated by this activation may change
-		bound := "next!0"
-		if li.lc.HasMod {
-			bound = pre.next
-		}
-		tinv = append(tinv, g.frameAxiom(fenv, mods, k, old, n, bound, g.stableLocals(li)...))
+		tinv = append(tinv, g.frameAxiomPats(li.pats, k, old, n, pre.next, li.touched))
 	}
 	for name := range ghostsMod {
 		gd := g.c.ghosts[name]
@@ -1548,9 +1545,9 @@ func (g *FnGen) runHooks(s *State, ins ssa.Instruction, recv string, recvT types
 	}
 }
 
-// stableLocals: references of the address-taken locals (Alloc with Heap set) that exist when the loop is
-// entered and that the loop neither stores to directly nor passes (by address) to a call.
-func (g *FnGen) stableLocals(li *loopInfo) []string {
+// touchedLocals: references of the address-taken locals (Alloc with Heap set) that exist when the loop is
+// entered and that the loop stores to directly or passes (by address) to a call.
+func (g *FnGen) touchedLocals(li *loopInfo) []string {
 	touched := map[*ssa.Alloc]bool{}
 	for b := range li.blocks {
 		for _, ins := range b.Instrs {
@@ -1570,19 +1567,17 @@ func (g *FnGen) stableLocals(li *loopInfo) []string {
 						touched[a] = true
 					}
 				}
-			case *ssa.Alloc:
-				touched[x] = true // allocated inside the loop
 			}
 		}
 	}
-	var out []string
 	var as []*ssa.Alloc
 	for v := range g.vals {
-		if a, ok := v.(*ssa.Alloc); ok && a.Heap && !touched[a] {
+		if a, ok := v.(*ssa.Alloc); ok && a.Heap && touched[a] {
 			as = append(as, a)
 		}
 	}
 	sort.Slice(as, func(i, j int) bool { return as[i].Pos() < as[j].Pos() || (as[i].Pos() == as[j].Pos() && as[i].Name() < as[j].Name()) })
+	var out []string
 	for _, a := range as {
 		if v := g.vals[a]; v != nil && v.term != "" {
 			out = append(out, v.term)
